@@ -575,7 +575,18 @@ impl DeconstructedPat {
                     .map(wildcard_of)
                     .collect()
             }
-            Type::Tuple(tys) | Type::Nominal(_, tys) => tys.iter().map(wildcard_of).collect(),
+            Type::Tuple(tys) => tys.iter().map(wildcard_of).collect(),
+            // a missing variant is shown with its payload (if it has one), not with one
+            // wildcard per type argument of the enum (`none of _`, `err of _, _`)
+            Type::Nominal(_, args) => match ctor {
+                Constructor::Variant((enum_def, idx)) => {
+                    match data_ty_of_variant(statics, enum_def, *idx, args) {
+                        Type::Void => vec![],
+                        data_ty => vec![wildcard_of(&data_ty)],
+                    }
+                }
+                _ => vec![],
+            },
             _ => vec![],
         };
         Self {
